@@ -96,16 +96,25 @@ def _case(job):
             'Meta': type('Meta', (), {'input_tasks': list(names), 'name': 'zsink'}),
             'run': _sink_run, '__module__': 'vgen.names'})
         setattr(mod, 'ZsinkTask', sink)
+        # a second dependant in the root namespace declaring SHORT names of root tasks (resolved inside the root
+        # namespace while the chain is wired; the same short name asked of the chain afterwards ranges over all namespaces)
+        roots = [t for t in case['names'] if not t['ns']]
+        shorts = sorted({t['name'] for t in roots if sum(1 for u in roots if u['name'] == t['name']) == 1})
+        zdep = type(Task)('ZdepTask', (Task,), {
+            'Meta': type('Meta', (), {'input_tasks': shorts, 'name': 'zdep'}),
+            'run': _sink_run, '__module__': 'vgen.names'})
+        setattr(mod, 'ZdepTask', zdep)
         for p in sorted(paths, key=len, reverse=True):
             tasks = [f"vgen.names.T_{':'.join(list(t['grp']) + [t['name']]).replace(':', '_')}"
                      for t in case['names'] if tuple(t['ns']) == p]
             if p == ():
                 tasks.append('vgen.names.ZsinkTask')
+                tasks.append('vgen.names.ZdepTask')
             uses = [f"{work / ('f_' + '_'.join(c) + '.json')} as {c[-1]}" for c in sorted(paths)
                     if len(c) == len(p) + 1 and c[:len(p)] == p]
             (work / ('f_' + '_'.join(p) + '.json')).write_text(json.dumps({'tasks': tasks, 'uses': uses, 'x': xval[p]}))
         chain = Config(work / 'data', work / 'f_.json').chain()
-        got_names = sorted(n for n in chain.tasks if n != 'zsink')
+        got_names = sorted(n for n in chain.tasks if n not in ('zsink', 'zdep'))
         if got_names != sorted(names):
             bad.append((f'chain-names:{sorted(names)}', f'chain built for names {sorted(names)} has tasks {got_names}'))
         else:
@@ -149,10 +158,13 @@ def run(ctx):
     cases = res.by_tag('N')
     ctx.exhaustive = True
     if ctx.quick():
-        # all sets of <= 2 names, plus a TLC run over triples without emission (design-level check only)
-        mod3, cfg3 = mc(3, False)
-        res3 = run_tlc('MCNames', cfg_text=cfg3, extra_files={'MCNames.tla': mod3}, workers=16, timeout=600)
-        account(ctx, res3, 'Names MaxSet=3 (TLC only, not replayed in the quick tier)')
+        # all sets of <= 2 names replayed, plus all triples model-checked and a seeded sample of them replayed
+        mod3, cfg3 = mc(3, True)
+        res3 = run_tlc('MCNames', cfg_text=cfg3, extra_files={'MCNames.tla': mod3}, workers=8, timeout=900)
+        account(ctx, res3, 'Names MaxSet=3 (all triples model-checked; a seeded sample of 2500 replayed in the quick tier)')
+        triples = [c for c in res3.by_tag('N') if len(c['names']) == 3]
+        cases = cases + ctx.rng.sample(triples, min(2500, len(triples)))
+        ctx.exhaustive = False
     _module()
     out = pmap(_case, list(enumerate(cases)))
     ctx.traces += len(cases)
